@@ -111,7 +111,7 @@ func init() {
 		Sections: func(tier core.Tier, seed int64) []core.Section {
 			k, nrand := 4, 60000
 			if tier == core.Thorough {
-				k, nrand = 5, 1500000
+				k, nrand = 5, 8000000
 			}
 			var secs []core.Section
 			secs = append(secs, seqSections("text-", TextAtoms, k, runText)...)
